@@ -81,6 +81,7 @@ var reCanonAny = regexp.MustCompile(`\bany\b`)
 
 // typeKey: canonical name of a type (byte/uint8, rune/int32 and any/interface{} identified).
 func typeKey(t types.Type) string {
+	t = unwrapT(t)
 	s := types.TypeString(t, func(p *types.Package) string { return p.Path() })
 	s = reCanonByte.ReplaceAllString(s, "uint8")
 	s = reCanonRune.ReplaceAllString(s, "int32")
@@ -89,6 +90,7 @@ func typeKey(t types.Type) string {
 }
 
 func shortType(t types.Type) string {
+	t = unwrapT(t)
 	return types.TypeString(t, func(p *types.Package) string { return p.Name() })
 }
 
